@@ -602,6 +602,7 @@ impl Engine for LoadEngine {
                     steps: 1,
                     trace_hash: mix(&trace),
                     executions: 1,
+                    ..Default::default()
                 };
             }
             Ok(Err(e)) => {
@@ -609,7 +610,7 @@ impl Engine for LoadEngine {
                 // (messages of file errors contain the sandbox path: keep them out of the event log)
                 let _ = e;
                 trace.push(0xE);
-                return Outcome { violation: None, nontrivial, steps: 1, trace_hash: mix(&trace), executions: 1 };
+                return Outcome { violation: None, nontrivial, steps: 1, trace_hash: mix(&trace), executions: 1, ..Default::default() };
             }
             Ok(Ok(m)) => m,
         };
@@ -642,6 +643,7 @@ impl Engine for LoadEngine {
                         steps: 2,
                         trace_hash: mix(&trace),
                         executions: 1,
+                        ..Default::default()
                     };
                 }
             }
@@ -674,7 +676,7 @@ impl Engine for LoadEngine {
                 }
             }
         }
-        Outcome { violation: None, nontrivial, steps: 3, trace_hash: mix(&trace), executions: 1 }
+        Outcome { violation: None, nontrivial, steps: 3, trace_hash: mix(&trace), executions: 1, ..Default::default() }
     }
 
     fn shrink(&self, case: &LoadCase) -> Vec<LoadCase> {
